@@ -14,6 +14,7 @@ type Gen struct {
 	Family string
 	Keys   []string // plain keys of the family under test
 	Other  []string // keys of other types (created by the prelude)
+	n      int      // commands generated so far in this programme (deep families: fresh element names / growing ids)
 }
 
 var nastyVals = []string{"", "a", "b", "ab", "abc", "A", "hello world", " ", "a b", "\r\n", "x\r\ny", "\x00", "\xff\xfe", "\n",
@@ -121,7 +122,7 @@ func (g *Gen) Prelude() [][]string {
 	var out [][]string
 	g.Other = nil
 	for _, t := range []string{"string", "list", "hash", "set", "zset", "stream"} {
-		if t == g.Family || (g.Family == "keys" && t == "string") || g.Family == "zsetdeep" || g.Family == "lifecycle" {
+		if t == g.Family || (g.Family == "keys" && t == "string") || g.Family == "zsetdeep" || g.Family == "lifecycle" || g.Family == "listdeep" || g.Family == "streamdeep" {
 			continue
 		}
 		out = append(out, all[t])
@@ -152,6 +153,10 @@ func (g *Gen) Next() []string {
 		a = g.nextZsetDeep()
 	case "lifecycle":
 		a = g.nextLifecycle()
+	case "listdeep":
+		a = g.nextListDeep()
+	case "streamdeep":
+		a = g.nextStreamDeep()
 	default:
 		panic("family " + g.Family)
 	}
@@ -454,7 +459,6 @@ func (g *Gen) nextStream() []string {
 	}
 }
 
-
 // zsetdeep: one sorted set with up to 24 members of mostly distinct scores: deep AVL trees, rotations after
 // deletions, score moves (delete + insert); the structural invariants are evaluated after every command.
 func (g *Gen) nextZsetDeep() []string {
@@ -472,6 +476,78 @@ func (g *Gen) nextZsetDeep() []string {
 		return []string{"zrange", "zd", g.pick([]string{"0", "1", "5", "-3"}), g.pick([]string{"-1", "3", "10", "-2"}), g.pick([]string{"withscores", "rev"})}
 	default:
 		return []string{"zrange", "zd", "0", "-1", "withscores"}
+	}
+}
+
+// listdeep: ONE list that grows to 10-25 elements and is read and patched at every position between pushes and pops at
+// both ends: whatever the implementation remembers between commands (cached positions, cursors, lengths) must keep
+// agreeing with the list. Positional reads dominate.
+func (g *Gen) nextListDeep() []string {
+	g.n++
+	e := "e" + strconv.Itoa(g.n)
+	idx := strconv.Itoa(g.R.Intn(31) - 15)
+	switch g.R.Intn(24) {
+	case 0, 1, 2:
+		return []string{"rpush", "ld", e}
+	case 3, 4, 5:
+		return []string{"lpush", "ld", e}
+	case 6:
+		return []string{"lpush", "ld", e, e + "b"}
+	case 7:
+		return []string{"lpop", "ld"}
+	case 8:
+		return []string{"rpop", "ld"}
+	case 9, 10, 11, 12, 13, 14:
+		return []string{"lindex", "ld", idx}
+	case 15:
+		return []string{"lset", "ld", idx, e}
+	case 16:
+		return []string{"lrange", "ld", idx, strconv.Itoa(g.R.Intn(31) - 15)}
+	case 17:
+		return []string{"lmove", "ld", "ld", g.pick([]string{"left", "right"}), g.pick([]string{"left", "right"})}
+	case 18:
+		return []string{"lpos", "ld", "e" + strconv.Itoa(1+g.R.Intn(g.n)), "rank", g.pick([]string{"1", "-1", "2"})}
+	case 19:
+		return []string{"lrem", "ld", g.pick([]string{"0", "1", "-1"}), "e" + strconv.Itoa(1+g.R.Intn(g.n))}
+	case 20:
+		return []string{"llen", "ld"}
+	case 21:
+		if g.R.Intn(3) == 0 {
+			return []string{"ltrim", "ld", g.pick([]string{"0", "1", "2"}), g.pick([]string{"-1", "-2", "-3"})}
+		}
+		return []string{"lpushx", "ld", e}
+	case 22:
+		return []string{"lpop", "ld", g.pick([]string{"0", "1", "2"})}
+	default:
+		return []string{"lrange", "ld", "0", "-1"}
+	}
+}
+
+// streamdeep: ONE stream with many entries, trimmed from time to time (also down to nothing), appended with explicit,
+// partial and stale IDs, and read through windows: the ID bookkeeping must survive trims and emptiness.
+func (g *Gen) nextStreamDeep() []string {
+	g.n++
+	ms := strconv.Itoa(1 + g.n/3 + g.R.Intn(3))
+	id := ms + "-" + strconv.Itoa(g.R.Intn(4))
+	switch g.R.Intn(16) {
+	case 0, 1, 2, 3, 4:
+		return []string{"xadd", "xd", id, "f", "v" + strconv.Itoa(g.n)}
+	case 5:
+		return []string{"xadd", "xd", ms + "-*", "f", "v" + strconv.Itoa(g.n)}
+	case 6:
+		return []string{"xadd", "xd", "maxlen", g.pick([]string{"0", "1", "2", "5"}), id, "f", "v"}
+	case 7:
+		return []string{"xadd", "xd", "minid", strconv.Itoa(g.R.Intn(3+g.n/3)) + g.pick([]string{"", "-1", "-3"}), id, "f", "v"}
+	case 8:
+		return []string{"xadd", "xd", "minid", "1000000", "2000000-" + strconv.Itoa(g.n), "f", "v"}
+	case 9:
+		return []string{"xadd", "xd", "nomkstream", id, "f", "v"}
+	case 10, 11, 12:
+		return []string{"xrange", "xd", g.pick([]string{"-", ms, ms + "-1", ms + "-2", "1"}), g.pick([]string{"+", ms, ms + "-2", strconv.Itoa(2 + g.n/3)})}
+	case 13:
+		return []string{"xadd", "xd", strconv.Itoa(g.R.Intn(2+g.n/3)) + "-" + strconv.Itoa(g.R.Intn(3)), "f", "stale"}
+	default:
+		return []string{"xrange", "xd", "-", "+"}
 	}
 }
 
